@@ -12,6 +12,19 @@ NOT_APPLICABLE = {pid: "monitor under construction in this round: no check is re
                   for pid in ["C%02d" % i for i in range(1, 19)]}
 
 PROPS = {
+    "C06": {
+        "technique": "runtime monitoring: soundness oracle (independent membership) over value()/super_image() call pairs for every function and aggregate of the enums and for generated expression trees, violations localised to the lowest failing node",
+        "level_text": "Exploration: for each of the 91 function variants, 20 aggregates and random expression trees (depth <= 4), argument types biased to range boundaries are drawn, several member values evaluated, and each result must lie in the propagated range (float tolerance 1e-9). ~3M judged evaluations per quick run; every function of the enum must have been evaluated or the run is inconclusive.",
+        "level_note": "Trusted: membership oracle, generators. value() results that are NULL although no argument is NULL are the library's way of swallowing an evaluation error and count as 'no evaluation'. Float tolerance 1e-9 relative / 1e-12 absolute.",
+        "rule": ("per case one function (round-robin over the whole enum; build breaks if a variant has no argument spec), "
+                 "argument types from the function's usual kinds (5/6) or arbitrary scalars (1/6), optional with prob 1/5; 6 value tuples per type tuple; "
+                 "aggregates over list types (size 0..8); expression trees over 5 typed columns. evaluation = one (S, v) pair on which value() returned a result; "
+                 "distinct non-trivial = distinct (function, S, v) whose propagated range is not `any`."),
+        "assumptions": COMMON_ASSUME + ["NULL produced from non-NULL arguments = swallowed evaluation error (not judged)",
+                                        "NaN, chrono extreme years and strings starting with U+10FFFF are outside the generated domain"],
+        "quick": {"shards": 16, "cases": 60000, "require": {"evaluations": 500000, "fn": 300000, "agg": 50000, "tree_evaluations": 100000}},
+        "thorough": {"shards": 16, "cases": 2500000, "watchdog_s": 7200, "require": {"evaluations": 20000000}},
+    },
     "C11": {
         "technique": "runtime monitoring: law-checking oracle with an independent membership model over generated type pairs/values, and a naive interval-set model checked after every operation of generated histories",
         "level_text": "Exploration: millions of (A, B, v) law instances and ~60k interval-set histories per quick run are judged by an independent membership oracle / naive model; a violation comes with the witness types and value. Sound for what is observed; says nothing about pairs the generators do not produce.",
